@@ -197,6 +197,20 @@ Fixpoint bad_from (modes : list mode) (n : nat) (g : graph) {struct g} : bool :=
 
 Definition graph_bad (modes : list mode) (g : graph) : bool := bad_from modes 0 g.
 
+(** the same without looking at expressions (a node whose body is never entered still counts):
+    what a purely structural filter, e.g. on the iteration order of the target, can see *)
+Fixpoint bad_struct_from (modes : list mode) (n : nat) (g : graph) {struct g} : bool :=
+  match g with
+  | TerminalNode _ => false
+  | IterationNode i out next =>
+      let matches := match out with Some o => Nat.eqb n (ol_layer o) | None => false end in
+      if matches then bad_struct_from modes (S n) next
+      else negb (forallb is_dense (skipn n modes))
+  | SumNode _ _ => negb (forallb is_dense (skipn n modes))
+  end.
+
+Definition graph_bad_struct (modes : list mode) (g : graph) : bool := bad_struct_from modes 0 g.
+
 (** With at least one kernel type requested.  (A bad graph has a compressed output level, so the
     early return for assemble kernels with fully dense outputs never hides it.) *)
 Definition first_graph_bad (a : dassign) (fs : formats) (ks : list kind) : bool :=
@@ -217,6 +231,19 @@ Definition generate_filtered (a : dassign) (fs : formats) (ks : list kind) : out
   match output_modes a fs with
   | None => IllFormed
   | Some modes => generate_from modes (best_of (filter_good modes (to_iteration_graphs a fs))) ks
+  end.
+
+(** structural variant (equivalent to skipping unsupported iteration orders of the target) *)
+Definition filter_good_struct (modes : list mode) (r : res (list graph)) : res (list graph) :=
+  match r with
+  | ROk gs => ROk (filter (fun g => negb (graph_bad_struct modes g)) gs)
+  | other => other
+  end.
+
+Definition generate_filtered_struct (a : dassign) (fs : formats) (ks : list kind) : outcome :=
+  match output_modes a fs with
+  | None => IllFormed
+  | Some modes => generate_from modes (best_of (filter_good_struct modes (to_iteration_graphs a fs))) ks
   end.
 
 (** ** Well-formed problems (boolean): what Problem.__post_init__ / Format.__post_init__ /
@@ -271,4 +298,16 @@ Definition filter_good_r (a : dassign) (fs : formats) (r : res (list graph)) : r
   match output_modes a fs with
   | Some modes => filter_good modes r
   | None => r
+  end.
+
+Definition filter_good_struct_r (a : dassign) (fs : formats) (r : res (list graph)) : res (list graph) :=
+  match output_modes a fs with
+  | Some modes => filter_good_struct modes r
+  | None => r
+  end.
+
+Definition first_graph_bad_struct_r (a : dassign) (fs : formats) (r : res (list graph)) : bool :=
+  match output_modes a fs, best_of r with
+  | Some modes, BGraph g => graph_bad_struct modes g
+  | _, _ => false
   end.
